@@ -145,3 +145,75 @@ TWINS["C13"] = [
        (C + "distributions/dictdistribution.py", "assert len(support) == len(set(support)), (",
         "assert len(support) == len(list(set(support))), (")),
 ]
+
+# ----------------------------------------------------------------------------------- C15
+OPT = C + "semimdp/option.py"
+SMDP = C + "semimdp/semimdp.py"
+MUTANTS["C15"] = [
+    M("revert-F14-discount-not-transferred", ["IFC-1"],
+      (OPT, "    AugmentedMDP.discount_rate = mdp.discount_rate\n", "")),
+    M("augment-reward-else-missing", ["IFC-1"],
+      (OPT, "    if reward is not None:\n        AugmentedMDP.reward = staticmethod(reward)\n    else:\n        AugmentedMDP.reward = mdp.reward\n",
+       "    if reward is not None:\n        AugmentedMDP.reward = staticmethod(reward)\n")),
+    M("augment-actions-from-wrong-member", ["IFC-1"],
+      (OPT, "        AugmentedMDP.is_absorbing = mdp.is_absorbing", "        AugmentedMDP.is_absorbing = mdp.actions")),
+    M("augment-action-list-from-state-list", ["IFC-1"],
+      (OPT, "            AugmentedMDP.action_list = mdp.action_list", "            AugmentedMDP.action_list = mdp.state_list")),
+    M("augment-state-list-dropped", ["IFC-1"],
+      (OPT, "        if state_list is not None:\n            AugmentedMDP.state_list = state_list\n        else:\n            AugmentedMDP.state_list = mdp.state_list\n",
+       "        if state_list is not None:\n            AugmentedMDP.state_list = state_list\n")),
+    M("option-terminal-on-initial", ["OPT-2"],
+      (OPT, "is_absorbing=lambda s : self.is_terminal(s),", "is_absorbing=lambda s : self.is_initial(s),")),
+    M("option-runs-on-base-mdp", ["OPT-3"],
+      (OPT, "            mdp=sub_mdp,\n            initial_state=initial_state,", "            mdp=mdp,\n            initial_state=initial_state,")),
+    M("option-max-steps-dropped", ["OPT-3"],
+      (OPT, "            max_steps=self.max_steps,\n            rng=rng", "            rng=rng")),
+    M("option-limit-guard-weakened", ["OPT-4"],
+      (OPT, "if len(result) >= self.max_steps:", "if len(result) > self.max_steps:")),
+    M("subtask-clip-before-terminal", ["SUB-2"],
+      (OPT, """            if self.is_terminal(ns):
+                return real_reward
+            if real_reward > self.max_nonterminal_pseudoreward:
+                return self.max_nonterminal_pseudoreward
+            return real_reward""", """            if real_reward > self.max_nonterminal_pseudoreward:
+                return self.max_nonterminal_pseudoreward
+            if self.is_terminal(ns):
+                return real_reward
+            return real_reward""")),
+    M("subtask-terminal-test-on-s", ["SUB-2"],
+      (OPT, "            if self.is_terminal(ns):\n                return real_reward", "            if self.is_terminal(s):\n                return real_reward")),
+    M("subtask-reward-args-swapped", ["SUB-2", "ARG"],
+      (OPT, "real_reward = self.mdp.reward(s, a, ns)", "real_reward = self.mdp.reward(ns, a, s)")),
+    M("subtask-absorbing-ignores-terminal", ["SUB-3"],
+      (OPT, "                is_absorbing = self.is_terminal(s) or self.mdp.is_absorbing(s)", "                is_absorbing = self.mdp.is_absorbing(s)")),
+    M("subtask-overrides-transitions", ["SUB-1"],
+      (OPT, "            initial_state_dist = initial_state_dist,\n        )", "            initial_state_dist = initial_state_dist,\n            actions = self.mdp.actions,\n        )")),
+    M("smdp-primitive-duration-zero", ["SMDP-1"],
+      (SMDP, "lambda ns: (ns, 1, self.mdp.reward(s, a, ns))", "lambda ns: (ns, 0, self.mdp.reward(s, a, ns))")),
+    M("smdp-normaliser-wrong", ["SMDP-2"],
+      (SMDP, "ns_t_r: c/self.n_option_simulations for ns_t_r, c in counts.items()", "ns_t_r: c/len(counts) for ns_t_r, c in counts.items()")),
+    M("smdp-discount-before-reward", ["SMDP-4"],
+      (SMDP, "                    cum_reward += r*discount\n                    discount = discount*self.mdp.discount_rate\n",
+       "                    discount = discount*self.mdp.discount_rate\n                    cum_reward += r*discount\n")),
+    M("smdp-undiscounted-sum", ["SMDP-4"],
+      (SMDP, "                    cum_reward += r*discount\n", "                    cum_reward += r\n")),
+    M("smdp-count-inside-loop", ["SMDP-5"],
+      (SMDP, "                        t += 1\n                counts[(ns, t, cum_reward)] += 1", "                        t += 1\n                    counts[(ns, t, cum_reward)] += 1")),
+    M("smdp-marginal-wrong-component", ["SMDP-6"],
+      (SMDP, "            lambda ns_t_r: ns_t_r[0]\n", "            lambda ns_t_r: ns_t_r[1]\n")),
+    M("smdp-sim-from-initial-state", ["SMDP-3"],
+      (SMDP, "simulation = a.run_on(self.mdp, initial_state=s, rng=rng)", "simulation = a.run_on(self.mdp, initial_state=self.mdp.initial_state_dist().sample(rng=rng), rng=rng)")),
+]
+TWINS["C15"] = [
+    TW("augment-setattr-form",
+       (OPT, "    AugmentedMDP.discount_rate = mdp.discount_rate\n", "    setattr(AugmentedMDP, 'discount_rate', mdp.discount_rate)\n")),
+    TW("augment-discount-in-class-body",
+       (OPT, "        def __init__(self): pass\n    AugmentedMDP.discount_rate = mdp.discount_rate\n", "        def __init__(self): pass\n        discount_rate = mdp.discount_rate\n")),
+    TW("option-limit-eq-rewritten",
+       (OPT, "if len(result) >= self.max_steps:", "n_steps = len(result)\n        if len(result) >= self.max_steps:")),
+    TW("smdp-rename-loop-vars",
+       (SMDP, "                for ns_, r in zip(sim.next_state, sim.reward):\n                    cum_reward += r*discount\n                    discount = discount*self.mdp.discount_rate\n                    if ns_ is not None:\n                        ns = ns_",
+        "                for nxt, rew in zip(sim.next_state, sim.reward):\n                    cum_reward += discount*rew\n                    discount = self.mdp.discount_rate*discount\n                    if nxt is not None:\n                        ns = nxt")),
+    TW("subtask-comment-and-assert",
+       (OPT, "            real_reward = self.mdp.reward(s, a, ns)\n", "            real_reward = self.mdp.reward(s, a, ns)\n            assert real_reward is not None\n")),
+]
